@@ -594,11 +594,22 @@ impl<T: El> MapWorld<T> {
                     0 => 0,
                     1 => 3,
                     2 => 15, // split
-                    _ => 40,
+                    3 => 40,
+                    4 => 22, // then emptied by retain: no elements, tombstones, lingering old table
+                    _ => 15, // then emptied key by key
                 };
                 for q in 0..nd {
                     let (a, b) = (Self::mkk(1000 + q), Self::mkv(q % VMOD));
                     window(|| d.insert(a, b));
+                }
+                if shape == 4 {
+                    window(|| d.retain(|_, _| false));
+                }
+                if shape >= 5 {
+                    for q in 0..nd {
+                        let a = Self::mkk(1000 + q);
+                        window(|| d.remove(&a));
+                    }
                 }
                 let src = &self.m;
                 window(|| d.clone_from(src));
@@ -1253,6 +1264,11 @@ impl<T: El> crate::engine::World for MapWorld<T> {
     }
     fn finish(self) -> VResult<()> {
         MapWorld::finish(self)
+    }
+    fn discard(self) -> bool {
+        let l = self.leaky;
+        drop(self);
+        l
     }
     fn present(&self) -> Vec<u32> {
         self.r.keys().copied().collect()
